@@ -22,6 +22,8 @@ struct NioCloseSyscall<I: CloseSyscall> {
 impl<I: CloseSyscall> CloseSyscall for NioCloseSyscall<I> {
     extern "C" fn close(&self, fn_ptr: Option<&extern "C" fn(c_int) -> c_int>, fd: c_int) -> c_int {
         _ = EventLoops::del_event(fd);
+        // the descriptor number may be reused by another socket: forget its cached limits
+        crate::syscall::forget_time_limits(fd);
         self.inner.close(fn_ptr, fd)
     }
 }
